@@ -15,7 +15,13 @@ import (
 	"time"
 )
 
-const Root = "/verif"
+// Root is /verif; a development run may point it at a scratch copy (evidence, replay files, known findings)
+var Root = func() string {
+	if v := os.Getenv("VERIF_ROOT"); v != "" {
+		return v
+	}
+	return "/verif"
+}()
 
 type Finding struct {
 	Property string `json:"property"`
